@@ -12,7 +12,7 @@ func init() {
 		ID: "C06",
 		Explanation: "Decided: WHERE a write may land is determined only by the allocator (write offsets derive from the ids of pages in tx.pages, which only tx.allocate fills from db.allocate, whose ids come from freelist.Allocate or the high-water mark); " +
 			"ids enter the free set only through the release path (Free makes pages pending, never free); frees and rollbacks are recorded under the writer's own txid; the old node page is freed before its replacement is allocated; the meta slot alternates (txid%2) and only init/write/writeMeta write the file. " +
-			"NOT decided: that release/releaseRange compute the right bound from the reader ids, and that Allocate returns only free runs (integer reasoning over runtime sets; see C09). Round 3: txPending.ids/alloctx stay index-aligned; hashMap.Allocate hands out only spans of at least n pages.",
+			"NOT decided: that release/releaseRange compute the right bound from the reader ids, and that Allocate returns only free runs (integer reasoning over runtime sets; see C09). Round 3: txPending.ids/alloctx stay index-aligned; hashMap.Allocate hands out only spans of at least n pages. Round 4: the free list rebuilt by scanning comes from the integrity check's reachability walk (re-evaluated).",
 		Run: func(c *Ctx) {
 			c13R1(c, "C06.R12") // a free list rebuilt by scanning must not list a reachable page as free (it would be handed out and overwritten)
 			rulePendingSlicesAligned(c, "C06.R10") // a page still visible to a reader is released (and overwritten) if its allocating txid is mispaired
